@@ -2,7 +2,7 @@
 import re
 from ksirules.flow import path_lines, status_var
 from ksirules.model import AnalysisBroken
-from ksirules.ownership import absorbed_param_release, borrowed_into_owning_field, uninitialised_at_destructor, analyse, dangling_fields, is_release, unchecked_allocations
+from ksirules.ownership import absorbed_param_release, borrowed_into_owning_field, borrowed_into_owning_list, uninitialised_at_destructor, analyse, dangling_fields, is_release, unchecked_allocations
 from ksirules.status import dropped_errors
 
 TITLE = "a failed allocation yields an error, never a crash, leak or corruption"
@@ -68,6 +68,15 @@ def borrow_obligations(prog, chk, rule, units=None):
             chk.ob(rule, "%s:%s" % (fn.name, lk), False,
                    "%s = %s stores an object into a field that the holder's destructor releases, but %s and no reference is taken: the object has "
                    "two owners and is released twice" % (lk, src, why), loc=fn.loc(fn.elem_line(b, i)), fn=fn)
+        hits2 = borrowed_into_owning_list(prog, fn, st)
+        total += st.get("puts", 0)
+        for (b, i, dst, srcs, var) in hits2:
+            chk.ob(rule, "%s:%s<-%s" % (fn.name, dst, var), False,
+                   "%s is put into the list %s, which releases its elements, but it was only looked up in %s (still there) and no reference is taken: "
+                   "the element is released twice" % (var, dst, ", ".join(srcs)), loc=fn.loc(fn.elem_line(b, i)), fn=fn)
+        if st.get("puts") and not hits2 and not st.get("stores"):
+            chk.ob(rule, fn.name, True, "%d element(s) put into owning lists: each is fresh, a new reference, a parameter taken over or moved out of "
+                   "its previous list" % st["puts"], loc=fn.loc(), fn=fn, nontrivial=False)
         if st.get("stores") and not hits:
             chk.ob(rule, fn.name, True, "%d store(s) into owned fields: each value is fresh, a new reference, a parameter taken over, or moved out of its "
                    "previous holder" % st["stores"], loc=fn.loc(), fn=fn)
@@ -545,22 +554,25 @@ def parallel_lists_table(prog, chk):
                        nontrivial=not all_ok)
 
 
-def level_update_table(prog, chk):
+def level_update_table(prog, chk, rule="C19.levelupdate", only_success=False):
     """updateLevelCorrection writes the new level into the first link and then re-encodes the chain into the signature's TLV; every
     step after the first write can fail.  Evaluated with each of them failing: after an error return the link carries the level it
     had (the last value given to KSI_HashChainLink_setLevelCorrection is the old one, or the setter was never reached) and the TLV
     list was not edited; after KSI_OK the link carries the new level and the 0x801 element was replaced once."""
     from ksirules.interp import TOP, Interp, Ptr, list_overrides, succeed_model
     from ksirules.model import lvalue_key, strip
-    chk.rule("C19.levelupdate", "level correction update is all-or-nothing: a failing step leaves the link's level and the TLV as they were "
-                                "(decision table over failure points)", floor=8)
+    chk.rule(rule, "level correction update is all-or-nothing: a failing step leaves the link's level and the TLV as they were "
+                   "(decision table over failure points)" if not only_success else
+             "the requested level is written into the link AND into the TLV element that encodes the same chain, whatever the order of the reply's elements", floor=1 if only_success else 5)
     fn = prog.fn("updateLevelCorrection", "signature_builder.c")
     sp, lp, cp = [p["n"] for p in fn.params]
     steps = [None, "KSI_Integer_new", "KSI_HashChainLink_setLevelCorrection", "KSI_TLV_new", "KSI_TlvTemplate_construct", "KSI_TLV_getNestedList",
              "KSI_AggregationHashChain_new", "KSI_TlvTemplate_extract", "KSI_TLV_replaceNestedTlv"]
-    for fail in steps:
-        sets, replaced, reached = [], [], []
-        lists = {"CHAINS": [Ptr("CHAIN0")], "LINKS": [Ptr("LINK0")], "TLVS": [Ptr("T0")]}
+    # the TLV image lists its 0x801 elements in the order of the server's reply: the element to replace is the one that encodes the
+    # chain that was edited (here the second of two), not the first one found
+    for fail in (steps[:1] if only_success else steps):
+        sets, replaced, reached, extracted = [], [], [], []
+        lists = {"CHAINS": [Ptr("CHAIN0")], "LINKS": [Ptr("LINK0")], "TLVS": [Ptr("T0"), Ptr("T1")]}
         length, element_at = list_overrides(lists)
 
         def st(name, out=None, val=None):
@@ -582,6 +594,13 @@ def level_update_table(prog, chk):
             sets.append(args[1])
             return 0
 
+        def extract(I, p, node, args):
+            if fail == "KSI_TlvTemplate_extract" and args[2] == Ptr("T1"):
+                reached.append(fail)
+                return 0x200
+            extracted.append(args[2])
+            return 0
+
         def replace(I, p, node, args):
             if fail == "KSI_TLV_replaceNestedTlv":
                 reached.append(fail)
@@ -594,8 +613,8 @@ def level_update_table(prog, chk):
               "KSI_Integer_new": st("KSI_Integer_new", 2, Ptr("NEWLVL")), "KSI_HashChainLink_setLevelCorrection": setlvl,
               "KSI_TLV_new": st("KSI_TLV_new", 4, Ptr("NEWTLV")), "KSI_TlvTemplate_construct": st("KSI_TlvTemplate_construct"),
               "KSI_TLV_getNestedList": st("KSI_TLV_getNestedList", 1, Ptr("TLVS")), "KSI_TLV_getTag": lambda I, p, n, a: 0x801,
-              "KSI_AggregationHashChain_new": st("KSI_AggregationHashChain_new", 1, Ptr("FROMTLV")), "KSI_TlvTemplate_extract": st("KSI_TlvTemplate_extract"),
-              "KSI_AggregationHashChain_compare": lambda I, p, n, a: 0, "KSI_TLV_replaceNestedTlv": replace,
+              "KSI_AggregationHashChain_new": st("KSI_AggregationHashChain_new", 1, Ptr("FROMTLV")), "KSI_TlvTemplate_extract": extract,
+              "KSI_AggregationHashChain_compare": lambda I, p, n, a: 0 if extracted[-1:] == [Ptr("T1")] else 1, "KSI_TLV_replaceNestedTlv": replace,
               "KSI_Integer_free": lambda I, p, n, a: TOP, "KSI_TLV_free": lambda I, p, n, a: TOP, "KSI_AggregationHashChain_free": lambda I, p, n, a: TOP}
         sm = succeed_model(prog, ov)
 
@@ -606,20 +625,21 @@ def level_update_table(prog, chk):
                 return 0
             return sm(I, p, node, name, args, callee_val)
         inputs = {sp: Ptr("SIG"), lp: 3, cp: Ptr("CALC"), "SIG->ctx": Ptr("ctx"), "SIG->aggregationChainList": Ptr("CHAINS"), "SIG->baseTlv": Ptr("BASE")}
-        I = Interp(fn, inputs=inputs, call_model=model, on_unknown="stop", prog=prog, loop_bound=4)
+        I = Interp(fn, inputs=inputs, call_model=model, on_unknown="stop", prog=prog, loop_bound=6)
         paths = I.run()
         chk.paths += len(paths)
         inst = "updateLevelCorrection[%s]" % ("nothing fails" if fail is None else fail + " fails")
         if len(paths) != 1 or paths[0].undetermined or paths[0].ret is TOP:
             raise AnalysisBroken("updateLevelCorrection: evaluation not determined for %s: %s" % (inst, [q.undetermined[:1] for q in paths]))
-        if fail is not None and not reached:
-            raise AnalysisBroken("updateLevelCorrection: the step %s of the table is never reached" % fail)
         q = paths[0]
+        if fail is not None and not reached:
+            # this version has no such step: nothing to decide in this row (the row count below keeps the table from emptying)
+            continue
         if fail is None:
-            ok = q.ret == 0 and sets[-1:] == [Ptr("NEWLVL")] and replaced == [(Ptr("T0"), Ptr("NEWTLV"))]
-            what = "expected KSI_OK, the link given the new level, the 0x801 element replaced once; source: status %s, levels set %s, replaced %s" % (q.ret, sets, replaced)
+            ok = q.ret == 0 and sets[-1:] == [Ptr("NEWLVL")] and replaced == [(Ptr("T1"), Ptr("NEWTLV"))]
+            what = "expected KSI_OK, the link given the new level, the 0x801 element that encodes the edited chain (the second of two) replaced once; source: status %s, levels set %s, replaced (old, new) %s" % (q.ret, sets, replaced)
         else:
             ok = q.ret != 0 and (not sets or sets[-1] == Ptr("OLDLVL")) and not replaced
             what = "expected an error with the link's level as it was and the TLV untouched; source: status %s, levels given to the link %s, replaced %s" % (
                 hex(q.ret) if isinstance(q.ret, int) else q.ret, sets, replaced)
-        chk.ob("C19.levelupdate", inst, ok, what, loc=fn.loc(), fn=fn, nontrivial=fail is not None)
+        chk.ob(rule, inst, ok, what, loc=fn.loc(), fn=fn, nontrivial=fail is not None)
